@@ -227,6 +227,34 @@ Definition of_key (k : N) (l : list event) : list event := filter (fun e => N.eq
 Definition pending_of (s : dst) (k : N) : list event :=
   match slot s k with Some (_, PCommitted e) => [e] | _ => [] end.
 
+(* ---- (3) SubscribeToSwampEvents at sync.Map granularity --------------------------------------
+   The function first Loads the swamp's subscriber map; if there is one it Stores the callback in
+   it, otherwise it builds a fresh map holding the callback and Stores that map under the swamp
+   name - over whatever is there by then.  Load and Store are separate steps. *)
+Inductive sstep := SLoad (c : N) | SStore (c : N).
+
+Record sst := { s_map : option (list N);        (* eventSubscribers[swamp] *)
+                s_seen : list (N * bool) }.     (* client -> its Load found a map *)
+
+Definition s_init : sst := {| s_map := None; s_seen := [] |}.
+
+Definition sstep_fn (s : sst) (x : sstep) : sst :=
+  match x with
+  | SLoad c =>
+      {| s_map := s_map s;
+         s_seen := (c, match s_map s with Some _ => true | None => false end) :: s_seen s |}
+  | SStore c =>
+      match find (fun p => N.eqb (fst p) c) (s_seen s) with
+      | Some (_, true) =>
+          {| s_map := match s_map s with Some l => Some (l ++ [c]) | None => Some [c] end;
+             s_seen := s_seen s |}
+      | Some (_, false) => {| s_map := Some [c]; s_seen := s_seen s |}
+      | None => s
+      end
+  end.
+
+Definition srun (tr : list sstep) : sst := fold_left sstep_fn tr s_init.
+
 (* ---- case checker ------------------------------------------------------------------------------ *)
 (* one observed SendMsg on a subscriber's stream *)
 Record omsg := {
@@ -242,8 +270,20 @@ Inductive wkind := WSet | WDelete | WShift | WIncr.
 Record wop := { w_kind : wkind; w_key : N; w_req : Z (* value set / increment *);
                 w_status : status (* reported *); w_val : Z (* value after (or removed value) *) }.
 
+(* [CPar ws]: writers running concurrently, each with its operations in program order (the
+   commit order across writers is not known to the harness).  [CDestroy]: gateway Destroy (all
+   records gone, no events).  [CSync k v]: the harness read record k and found value v. *)
 Inductive cstep :=
-| CSub (c : N) | CUnsub (c : N) | CUnload | CWrite (o : wop).
+| CSub (c : N) | CUnsub (c : N) | CUnload | CWrite (o : wop)
+| CPar (ws : list (list wop)) | CDestroy | CSync (k : N) (v : Z).
+
+(* one linearisation: writer by writer *)
+Definition flat1 (x : cstep) : list cstep :=
+  match x with
+  | CPar ws => map CWrite (concat ws)
+  | _ => [x]
+  end.
+Definition flatten (h : list cstep) : list cstep := flat_map flat1 h.
 
 Record case := {
   c_hist : list cstep;
@@ -251,12 +291,15 @@ Record case := {
   c_recv : list (N * list omsg)      (* per subscriber, in the order SendMsg was entered *)
 }.
 
-Definition to_hstep (x : cstep) : hstep :=
+Definition to_hstep (x : cstep) : list hstep :=
   match x with
-  | CSub c => HSub c
-  | CUnsub c => HUnsub c false
-  | CUnload => HUnload
-  | CWrite o => HWrite (w_key o) (w_status o) (w_val o) 0
+  | CSub c => [HSub c]
+  | CUnsub c => [HUnsub c false]
+  | CUnload => [HUnload]
+  | CDestroy => [HUnload]
+  | CWrite o => [HWrite (w_key o) (w_status o) (w_val o) 0]
+  | CPar _ => []
+  | CSync _ _ => []
   end.
 
 Definition pbstatus_eqb (a b : pbstatus) : bool :=
@@ -312,7 +355,13 @@ Fixpoint noop_scan (h : list cstep) (nsub : nat) (st : list (N * (Z * bool))) : 
   | [] => 0%N
   | CSub _ :: t => noop_scan t (S nsub) st
   | CUnsub _ :: t => noop_scan t (pred nsub) st
-  | CUnload :: t => noop_scan t nsub []
+  | CUnload :: t => noop_scan t nsub (map (fun p => (fst p, (fst (snd p), false))) st)
+  | CDestroy :: t => noop_scan t nsub []
+  | CPar _ :: t => noop_scan t nsub st       (* not present after [flatten] *)
+  | CSync k v :: t =>
+      noop_scan t nsub ((k, (v, match find (fun p => N.eqb (fst p) k) st with
+                                  | Some p => snd (snd p) | None => true end))
+                        :: filter (fun p => negb (N.eqb (fst p) k)) st)
   | CWrite o :: t =>
       let k := w_key o in
       let cur := match find (fun p => N.eqb (fst p) k) st with Some p => Some (snd p) | None => None end in
@@ -336,8 +385,74 @@ Fixpoint noop_scan (h : list cstep) (nsub : nat) (st : list (N * (Z * bool))) : 
         noop_scan t nsub st'
   end.
 
+(* ---- per key: the received list must be an interleaving of the writers' change lists ------------ *)
+Definition proj_w (o : wop) := (w_key o, conv_status (w_status o), w_val o).
+Definition is_chg_k (k : N) (o : wop) : bool := N.eqb (w_key o) k && is_change (w_status o).
+Definition is_nil {A} (l : list A) : bool := match l with [] => true | _ => false end.
+
+(* a commit order of one record has New only on an absent record, Modified/Deleted on a present one *)
+Definition status_ok (present : bool) (s : status) : bool :=
+  match s with StNew => negb present | StModified | StDeleted => present | _ => true end.
+Definition present_after (present : bool) (s : status) : bool :=
+  match s with StNew | StModified => true | StDeleted => false | _ => present end.
+
+Fixpoint pop_match (x : N * pbstatus * Z) (ws : list (list wop)) : option (wop * list (list wop)) :=
+  match ws with
+  | [] => None
+  | [] :: t => option_map (fun r => (fst r, [] :: snd r)) (pop_match x t)
+  | (o :: r) :: t =>
+      if proj_eqb x (proj_w o) then Some (o, r :: t)
+      else option_map (fun q => (fst q, (o :: r) :: snd q)) (pop_match x t)
+  end.
+
+Fixpoint consume (fuel : nat) (strict : bool) (obs : list (N * pbstatus * Z)) (ws : list (list wop))
+                 (present : bool) : option (list (N * pbstatus * Z) * bool) :=
+  if forallb is_nil ws then Some (obs, present) else
+  match fuel with
+  | O => None
+  | S f =>
+      match obs with
+      | [] => None
+      | x :: t =>
+          match pop_match x ws with
+          | None => None
+          | Some (o, ws') =>
+              if negb strict || status_ok present (w_status o)
+              then consume f strict t ws' (present_after present (w_status o))
+              else None
+          end
+      end
+  end.
+
+Definition block (k : N) (ws : list (list wop)) (sub present : bool) (obs : list (N * pbstatus * Z))
+  : option (list (N * pbstatus * Z) * bool) :=
+  let wk := map (filter (is_chg_k k)) ws in
+  if sub then
+    consume (length (concat wk)) (Nat.leb 2 (length (filter (fun l => negb (is_nil l)) wk))) obs wk present
+  else Some (obs, fold_left (fun p o => present_after p (w_status o)) (concat wk) present).
+
+Fixpoint walk (s k : N) (h : list cstep) (sub present : bool) (obs : list (N * pbstatus * Z)) : bool :=
+  match h with
+  | [] => is_nil obs
+  | CSub c :: t => walk s k t (if N.eqb c s then true else sub) present obs
+  | CUnsub c :: t => walk s k t (if N.eqb c s then false else sub) present obs
+  | CUnload :: t => walk s k t sub present obs
+  | CDestroy :: t => walk s k t sub false obs
+  | CSync _ _ :: t => walk s k t sub present obs
+  | CWrite o :: t =>
+      match block k [[o]] sub present obs with
+      | Some (obs', p') => walk s k t sub p' obs' | None => false end
+  | CPar ws :: t =>
+      match block k ws sub present obs with
+      | Some (obs', p') => walk s k t sub p' obs' | None => false end
+  end.
+
+Definition perm_eqb (a b : list (N * pbstatus * Z)) : bool :=
+  Nat.eqb (length a) (length b) && forallb (fun x => Nat.eqb (count_p x a) (count_p x b)) a.
+
 Definition chk (c : case) : N :=
-  let h := map to_hstep (c_hist c) in
+  let fl := flatten (c_hist c) in
+  let h := flat_map to_hstep fl in
   (* Concurrent changes never corrupt the stream: no two SendMsg calls of one stream overlap *)
   if existsb (fun s => overlap_from 0 (obs_of c s)) (c_subs c) then 4%N
   (* the timestamp is the wall-clock time of the change *)
@@ -345,24 +460,28 @@ Definition chk (c : case) : N :=
     (if forallb (fun s => forallb (fun m => time_ok m || time_is_nanos_as_secs m) (obs_of c s)) (c_subs c)
      then 6%N else 5%N)
   else
-    (* one event per committed change of the window, per key in commit order; whole list as a multiset *)
+    (* one event per committed change of the window; per key in a commit order (an interleaving of
+       the writers' program orders with consistent statuses); whole list as a multiset *)
     let per_key :=
       first_nz (flat_map (fun s =>
-        map (fun k => cmp_lists (map proj_o (key_of_o k (obs_of c s)))
-                                (map proj_m (key_of_m k (expected true s h)))) (c_keys c)
+        map (fun k =>
+               let ok := map proj_o (key_of_o k (obs_of c s)) in
+               if walk s k (c_hist c) false false ok then 0%N
+               else match cmp_lists ok (map proj_m (key_of_m k (expected true s h))) with
+                    | 0%N => 7%N | x => x end) (c_keys c)
         ++ [if Nat.eqb (length (obs_of c s)) (length (expected true s h))
                && forallb (fun m => nmem (o_key m) (c_keys c)) (obs_of c s) then 0%N else 3%N])
         (c_subs c)) in
     if negb (N.eqb per_key 0) then per_key
     else
-      let np := noop_scan (c_hist c) 0 [] in
+      let np := noop_scan fl 0 [] in
       if negb (N.eqb np 0) then np
       else
-        (* replay on the faithful machine *)
+        (* replay on the faithful machine (one linearisation: compared per key as multisets) *)
         let st := hrun true h in
         if forallb (fun s => forallb (fun k =>
-              list_eqb proj_eqb (map proj_o (key_of_o k (obs_of c s)))
-                                (map proj_m (key_of_m k (recv_of s st)))) (c_keys c)) (c_subs c)
+              perm_eqb (map proj_o (key_of_o k (obs_of c s)))
+                       (map proj_m (key_of_m k (recv_of s st)))) (c_keys c)) (c_subs c)
         then 0%N else 1%N.
 
 Definition check_all (cs : list case) : list verdict := check_cases chk cs.
